@@ -44,6 +44,8 @@ type c03script struct {
 	noTimeout bool
 	// warm: an earlier exchange on the same client (see env.warm)
 	warm string
+	// large: one of the blocks carries a value of 4..256 KiB
+	large bool
 }
 
 var errSentinel = errors.New("callback sentinel failure")
@@ -79,7 +81,20 @@ func drawScript(rt *rapid.T) c03script {
 		}
 		return b
 	}
+	// One script in twenty-five carries a large data block (an incompressible String value of a
+	// size around the reader's buffer sizes) among its items.
+	var large []byte
+	if s.binding != "auto" && rapid.IntRange(0, 24).Draw(rt, "large-block") == 0 {
+		s.kinds[0] = gen.ByName["String|X|String"]
+		large = gen.Expand(rapid.Uint64().Draw(rt, "large-seed"), rapid.SampledFrom([]int{4 << 10, 16 << 10, 64 << 10, 128 << 10, 256 << 10}).Draw(rt, "large-size")+rapid.IntRange(-40, 1000).Draw(rt, "large-extra"))
+	}
 	nItems := rapid.IntRange(0, 8).Draw(rt, "items")
+	if large != nil {
+		b := mkBlock(rapid.IntRange(1, 3).Draw(rt, "rows"))
+		b.Columns[0].Rows[0] = large
+		s.items = append(s.items, Item{Kind: rapid.SampledFrom([]string{"data", "data", "totals"}).Draw(rt, "large-item"), Block: b})
+		s.large = true
+	}
 	for i := 0; i < nItems; i++ {
 		switch rapid.SampledFrom([]string{"data", "data", "data", "totals", "progress", "profile", "profileevents", "log", "tablecolumns", "header", "endmarker"}).Draw(rt, "item") {
 		case "data":
@@ -548,6 +563,9 @@ func TestC03Delivery(t *testing.T) {
 				return map[string]any{"kind": "server-script", "script": s.describe()}
 			})
 			st.Label("binding:" + s.binding)
+			if s.large {
+				st.Label("large-block")
+			}
 			st.Label("ends:" + s.items[len(s.items)-1].Kind)
 			if len(s.failAt) > 0 {
 				st.Label("failing-callback")
